@@ -99,6 +99,8 @@ EXEC = [
     ("assign_arrcons", "{n1} = (/ {d1}, {d2}, {n2} /)", "fix"),
     ("assign_arrcons_long", "{n1} = (/ {d1}, {d2}, {n2}, {d1}, {n2}, {d3}, 7, {n3}, 9, {n2} + 1, {n3} /)", "fix"),
     ("call_long", "call {n1}({n2}, {n3}, {n2}, {d1}, {d1}, {n4}, {n2}, 8, {n4}, {n3}({n2}), {n2})", "fix"),
+    ("assign_same_real", "{n1} = 2.0e-3 * ({d1}.0e-3 * {n2} + {d1}.0e-3 * {n3}) + ({d2}.5e-3, {d2}.5e-3)", "fix"),
+    ("assign_same_str", "{n1} = '{s1}' // {n2}('{s1}', ({n3} + 1) * ({n3} + 1)) // '{s1}'", "fix"),
     ("assign_kind", "{n1} = {d1}_{n2} + 1.0_{d2}", "fix"),
     ("ptr_assign", "{n1} => {n2}", "one"),
     ("nullify", "nullify({n1})", "one"),
